@@ -119,8 +119,11 @@ CHECKS = {
               "HandshakeV10 auth-plugin-data part 2 rule MAX(13, len-8) for all three greeting kinds - repaired in /repo; TPKT "
               "length incl. header; X.224 CR/CC with negotiation request/response, the zero protocol value normalised - repaired; "
               "OpenVPN opcode/key-id byte, session ids, packet-id arrays, 2-byte TCP length; PostgreSQL SSLRequest), round trip with "
-              "any suffix, and the parsed message type is the type on the wire (a confirm is never returned as a request). LDAP goes "
-              "through asn1crypto: framing and result only, on the implementation. The one deviation left is the X.224 reference "
+              "any suffix, and the parsed message type is the type on the wire (a confirm is never returned as a request). LDAP decoding goes "
+              "through asn1crypto (result code and message type: implementation side, against an independent BER encoder); the library's "
+              "own LDAP framing function is modelled (CpModel/Opp/Ldap.lean) and proved to return the TLV length for every BER length "
+              "form - short, long on 1..127 octets, minimal or zero-padded (CpProps/C09Ldap.lean, 6 theorems) - and run against the "
+              "model on generated headers; conformant messages in every length form are parsed with and without following octets. The one deviation left is the X.224 reference "
               "order, pinned by the repository tests (known finding, visible false statement with witness)."),
         design='Appendix B (OPP)', note=CLS_NOTE),
     'C14': dict(
@@ -184,12 +187,16 @@ CHECKS = {
               "a bytearray, overwrite/truncate it, compare; parse_mutable vs parse_immutable)."),
         design='§6 C13', note=COMMON_NOTE + " (a) and (c) are runtime monitoring on the implementation, not proof obligations."),
     'C15': dict(
-        technique='Lean 4: full statement refuted by kernel-checked witnesses, section-level theorems against the published definition + JA3 from wire bytes (Lean spec and independent Python) vs implementation',
+        technique='Lean 4: full statement refuted by kernel-checked witnesses, partial theorem (JA3 of every parsed hello outside the three pinned deviation classes = published rule on its wire-order code lists; stable under compose-and-parse) + JA3 from wire bytes (Lean spec and independent Python) vs implementation',
         text=("ja3() is modelled over the parsed ClientHello; the published definition is written as a Lean function of the "
               "wire bytes (CpSpec/Ja3.lean). C15_full (ja3 of the parsed object = definition applied to the bytes) is proved "
               "FALSE with witnesses (GREASE cipher suite kept; SCSV suite dropped) - recorded as known findings because the "
               "repository's own test pins them. Proved: the elliptic-curve section equals the published rule on the wire "
-              "codes for canonical items, GREASE tables = RFC 8701, no known group/extension code is GREASE. Every generated "
+              "codes for canonical items, GREASE tables = RFC 8701, no known group/extension code is GREASE. C15_partial_fields "
+              "(CpProps/C15Partial.lean): for EVERY hello the parser returns that is outside the three recorded deviation classes "
+              "(hypotheses = their negations) JA3 is the published last stage (GREASE filter in every section, decimal, joins) "
+              "applied to the hello's wire-order code lists, the last supported-groups / point-formats extension deciding; "
+              "ja3_stable: compose-and-parse returns the same value, hence the same JA3. Every generated "
               "hello is checked four ways (library, model, Lean spec from bytes, Python reference from bytes) and any "
               "deviation outside the three recorded classes is a violation."),
         design='§6 C15', note=CLS_NOTE),
